@@ -91,7 +91,7 @@ CLAIMS = {
          "that RegisterPrefixAlias rejects exactly duplicates, that Imports() lists every used package once in strictly increasing path order, that SanitizeImport maps quoted/unquoted/'.' forms as documented, "
          "that StepCompileMeta registers every alias of meta.imports before any function and that functions resolve their import when a token is created (never at registration), that local and current-package (\".\") forms of constructor / type / decorator references are emitted unqualified and the pointer prefix is kept, "
          "that CodeFormatter.Format always passes the gofmt'ed source through the import-pruning pass (in normal and in stub mode) and that Builder.Build renders the body before the head (the head lists what the body imported), and that the alias and import grammars equal their documented languages."),
-   note=("Build-time half. Not covered: the qualified forms alias(import).symbol of references (word equations over regex captures: the obligations time out and were dropped), template-internal imports (an alias equal to a standard package name such as fmt still captures the template's own import: recorded in DESIGN.md section 5 as not expressible by the current contracts), goimports pruning, linking. "
+   note=("Build-time half. Not covered: the qualified forms alias(import).symbol of references (word equations over regex captures: the obligations time out and were dropped), goimports' own pruning logic, linking. Known finding D5 (listed in known_findings.json, reported as KNOWN-FINDING, not repaired): an alias equal to the first path segment of a package the generator imports itself (fmt, github.com) captures that import; stated as lemma generator_imports_denote_themselves, which fails. "
          "hex/sanitise/last-segment are abstract functions with an assumed injectivity axiom. " + TB),
    design="DESIGN.md section 4 C14"),
  "C11": dict(
